@@ -317,6 +317,7 @@ func runCases(ctx *Ctx, cases []Case, par int) {
 	model := make([]string, len(cases))
 	spec := make([]string, len(cases))
 	for k, r := range refs {
+		outs[k] = resolveResidual(outs[k]) // `res <expr>`: evaluate stdlib primitives left residual by Lean (residual.go)
 		if r.kind == 'M' {
 			model[r.idx] = outs[k]
 			res.ModelLines++
